@@ -17,9 +17,9 @@ def outpoint(inp):
     return txid_wire + wire.le(vout, 4)
 
 
-def ser_output(out):
+def ser_output(out, ser=wire.ser_string):
     value, script = out
-    return wire.le(value, 8) + wire.ser_string(script)
+    return wire.le(value, 8) + ser(script)
 
 
 def concat(parts):
@@ -29,7 +29,7 @@ def concat(parts):
     return r
 
 
-def bip143_preimage(version, inputs, outputs, locktime, i, script_code, amount, hash_type):
+def bip143_preimage(version, inputs, outputs, locktime, i, script_code, amount, hash_type, ser=wire.ser_string):
     """BIP143 "Specification": the 10-item serialisation that is double-SHA256 hashed"""
     base = hash_type & 0x1f
     acp = (hash_type & SIGHASH_ANYONECANPAY) != 0
@@ -40,24 +40,29 @@ def bip143_preimage(version, inputs, outputs, locktime, i, script_code, amount, 
     else:
         hash_sequence = dsha(concat([wire.le(x[2], 4) for x in inputs]))
     if base != SIGHASH_SINGLE and base != SIGHASH_NONE:
-        hash_outputs = dsha(concat([ser_output(o) for o in outputs]))
+        hash_outputs = dsha(concat([ser_output(o, ser) for o in outputs]))
     elif base == SIGHASH_SINGLE and i < len(outputs):
-        hash_outputs = dsha(ser_output(outputs[i]))
+        hash_outputs = dsha(ser_output(outputs[i], ser))
     else:
         hash_outputs = zero
-    return (wire.le(version, 4) + hash_prevouts + hash_sequence + outpoint(inputs[i]) + wire.ser_string(script_code)
+    return (wire.le(version, 4) + hash_prevouts + hash_sequence + outpoint(inputs[i]) + ser(script_code)
             + wire.le(amount, 8) + wire.le(inputs[i][2], 4) + hash_outputs + wire.le(locktime, 4) + wire.le(hash_type, 4))
 
 
-def legacy_all_preimage(version, inputs, outputs, locktime, i, script_code):
+def legacy_all_preimage(version, inputs, outputs, locktime, i, script_code, ser=wire.ser_string):
     """legacy SIGHASH_ALL: the transaction with every input script empty except input i, which carries the script code
     (the script of the output being spent / the redeem script), followed by the 4-byte hash type"""
     r = wire.le(version, 4) + wire.compact_size(len(inputs))
     k = 0
     for x in inputs:
-        r = r + outpoint(x) + (wire.ser_string(script_code) if k == i else b'\x00') + wire.le(x[2], 4)
+        r = r + outpoint(x) + (ser(script_code) if k == i else b'\x00') + wire.le(x[2], 4)
         k += 1
     r = r + wire.compact_size(len(outputs))
     for o in outputs:
-        r = r + ser_output(o)
+        r = r + ser_output(o, ser)
     return r + wire.le(locktime, 4) + wire.le(SIGHASH_ALL, 4)
+
+
+def varstr_as_observed(s):
+    """pin F-varstr-00: the library serialises the one-byte string 00 as 00 (no length prefix)"""
+    return s if s == b'\x00' else wire.ser_string(s)
